@@ -191,11 +191,12 @@ def entity_table_check(ctx):
 
 
 def run(ctx):
-    ok = ctx.lean_stage(["entities", "emph_chars"], ["Verif.Props.C03", "Verif.Props.BqCount", "Verif.Props.LinkRecog", "Verif.Props.InlineRecog", "Verif.Props.Emphasis", "Verif.Props.GfmRender", "Verif.Props.ListStarts"])
+    ok = ctx.lean_stage(["entities", "emph_chars"], ["Verif.Props.C03", "Verif.Props.BqCount", "Verif.Props.LinkRecog", "Verif.Props.InlineRecog", "Verif.Props.Emphasis", "Verif.Props.GfmRender", "Verif.Props.ListStarts", "Verif.Props.LeafBlocks2"])
     import blocks
     blocks.linkrecog(ctx)      # dest / title / label recognisers = CommonMark via LeanMark (+ the *_differs witnesses), unescape_value, normalize_spec
     blocks.inlinerecog(ctx)    # raw HTML / autolink / entity / escape / code span recognisers = LeanMark outside stated input sets
     blocks.emphasis(ctx)       # flanking and rule-of-3 = spec sentences; rule_of_3_deviation
+    blocks.leafblocks2(ctx)    # html_end_spec, type7_no_interrupt, fence_content_spec_partial, icode_content_spec: = CommonMark 4.4 / 4.5 / 4.6 sentences; start-condition departures witnessed
     blocks.liststarts(ctx)     # list_start_spec / same_list_spec / interrupt_spec_partial / content_column_spec_partial: = the CommonMark 5.2 / 5.3 sentences, excluded classes proved
     blocks.gfm(ctx)            # faithful HTML generator: render_total / balanced / escapes, looseness vs the CommonMark definition
     ctx.block("bqcountlib", "bqcount", __import__("blocks").SRC["bqcount"])          # count = recursive specification / CommonMark marker definition (count_eq_spec)
